@@ -67,6 +67,7 @@ func c03Judge(r *mc.Run, id, sig string, w *world.World, g *world.Getter, err er
 func runC03(r *mc.Run) {
 	w := world.Honest("T")
 	F := world.CachedPKI("F")
+	Fc := world.ClonePKI(w.PKI, "Fclone", w.Plat) // look-alike that also reuses the genuine serial numbers
 	pool := []*x509.Certificate{w.PKI.Root}
 	if err := w.Verify(world.L1); err != nil {
 		r.Set("baseline_accepted", false)
@@ -124,7 +125,7 @@ func runC03(r *mc.Run) {
 	signers := []struct {
 		name string
 		key  *world.Key
-	}{{"tcb", w.PKI.TcbKey}, {"F.tcb", F.TcbKey}, {"inter", w.PKI.InterKey}, {"leaf", w.PKI.LeafKey}, {"root", w.PKI.RootKey}, {"tcb-by-inter", world.NewKey("T/tcb-by-inter")}}
+	}{{"tcb", w.PKI.TcbKey}, {"clone.tcb", Fc.TcbKey}, {"F.tcb", F.TcbKey}, {"inter", w.PKI.InterKey}, {"leaf", w.PKI.LeafKey}, {"root", w.PKI.RootKey}, {"tcb-by-inter", world.NewKey("T/tcb-by-inter")}}
 	chains := []struct {
 		name  string
 		certs []*x509.Certificate
@@ -140,6 +141,8 @@ func runC03(r *mc.Run) {
 		{"[root,tcb]", []*x509.Certificate{w.PKI.Root, w.PKI.Tcb}},
 		{"[F.tcb,root]", []*x509.Certificate{F.Tcb, w.PKI.Root}},
 		{"[tcb,F.root]", []*x509.Certificate{w.PKI.Tcb, F.Root}},
+		{"clone[tcb,root]", []*x509.Certificate{Fc.Tcb, Fc.Root}},
+		{"[clone.tcb,root]", []*x509.Certificate{Fc.Tcb, w.PKI.Root}},
 		{"[tcb-by-inter,inter]", []*x509.Certificate{tcbByInter, w.PKI.Inter}},
 		{"[tcb-by-inter,root]", []*x509.Certificate{tcbByInter, w.PKI.Root}},
 	}
